@@ -14,7 +14,7 @@ RULE = ('random DFAs, NFAs, regexps, grammars, PDAs (incl. a closure limit small
         '(exact oracle for DFA / NFA / regexp results, enumeration up to length 4 for grammar and PDA results). Non-trivial = the object has >= 2 states / rules / nodes; distinct by object.')
 CODES = {9: 'generated object invalid (harness)', 10: 'dfa_accepts_word differs from the model value', 11: 'dfa_words_up_to_n differs from the model value', 12: 'a minimiser result is not language-equivalent',
          13: 'dfa_to_regexp result not language-equivalent', 30: 'nfa_accepts_word differs from the model value', 31: 'nfa_words_up_to_n differs from the model value', 32: 'nfa_to_dfa result not language-equivalent',
-         33: 'nfa_repetition result not language-equivalent to the model', 99: 'a value that must not depend on PYTHONHASHSEED differs between two hash seeds'}
+         33: 'nfa_repetition result not language-equivalent to the model', 99: 'a value that must not depend on PYTHONHASHSEED or on earlier calls differs between two fresh processes (different hash seed; in every second process the same operation is first applied to a sibling object)'}
 for c in (20, 40, 50):
     CODES[c] = 'an operation modified its argument'
     CODES[c + 1] = 'calling the operation a second time gave a different result'
@@ -35,6 +35,19 @@ def gen(rng, tier):
     cases = []
     for _ in range(k):
         cases.append({'kind': 'dfa', 'X': G.random_dfa(rng, rng.randint(1, 5), rng.choice(['a', 'ab'])), 'ws': G.random_words(rng, 'ab', 6, 5)})
+    for _ in range(k // 2):
+        # chains / counters: table filling and partition refinement need several rounds, whose outcome must not depend on the state order
+        m = rng.randint(5, 9)
+        Q = ['q%d' % i for i in range(m)]
+        rng.shuffle(Q)
+        sigma = rng.choice(['a', 'ab'])
+        delta = []
+        for i, q in enumerate(Q):
+            delta.append([q, 'a', Q[i + 1] if i + 1 < m else Q[rng.choice([m - 1, 0, m // 2])]])
+            if 'b' in sigma:
+                delta.append([q, 'b', rng.choice([q, Q[0], Q[(i + 2) % m]])])
+        F = [Q[i] for i in range(m) if i in (m - 1,) or (rng.random() < 0.15)]
+        cases.append({'kind': 'dfa', 'X': {'Q': sorted(Q), 'Sigma': list(sigma), 'delta': delta, 'q0': Q[0], 'F': F}, 'ws': G.random_words(rng, sigma, 6, 9), 'nore': True})
     for _ in range(k):
         n = G.random_nfa(rng, rng.randint(1, 4), rng.choice(['a', 'ab']), rng.choice(['_', 'ε']), peps=0.3)
         cases.append({'kind': 'nfa', 'X': n, 'ws': G.random_words(rng, 'ab', 6, 5), 'N2': G.random_nfa(rng, rng.randint(1, 2), 'ab', n['eps'], names=['s', 't'])})
@@ -55,6 +68,12 @@ def gen(rng, tier):
     for _ in range(k // 2):
         p = G.random_pda(rng, rng.randint(1, 3), rng.choice(['a', 'ab']), 'xy', rng.choice(['_', 'ε']), ntrans=rng.randint(1, 6))
         p['delta'] = [t for t in p['delta'] if not (t[1] == p['eps'] and t[4] != p['eps'])]
+        cases.append({'kind': 'pda', 'X': p, 'limit': 1000})
+    for _ in range(k // 3):
+        # already in push/pop format with exactly one accepting state (no normalisation step copies the argument)
+        p = G.random_pda(rng, rng.randint(2, 3), rng.choice(['a', 'ab']), 'xy', rng.choice(['_', 'ε']), ntrans=rng.randint(2, 6), kinds=['push', 'pop'])
+        p['delta'] = [t for t in p['delta'] if not (t[1] == p['eps'] and t[4] != p['eps'])]
+        p['F'] = [rng.choice(p['Q'])]
         cases.append({'kind': 'pda', 'X': p, 'limit': 1000})
     # truncated closures (known finding F17 before its repair): a pushing epsilon loop next to an accepting epsilon chain
     eps = '_'
@@ -90,6 +109,11 @@ def _history():
     regexp_to_nfa(parse_simple_regexp('a(b+a)*'))
 
 
+def _cfgwords(g, n=2):
+    from gambatools.cfg_algorithms import cfg_words_up_to_n
+    return cfg_words_up_to_n(g, n)
+
+
 def _lang(x, n=4):
     from gambatools.language_generator import generate_language
     return sorted(generate_language(x, n))
@@ -102,7 +126,14 @@ def observe(c):
     x = c['X']
     values, flags, extra = [], [], {}
 
-    def probe(name, call, canon, snapshot, stable=True):
+    sibling = {'obj': None}      # an object that looks like the argument (same printed rules / transitions) but differs in one field
+
+    import os
+    pre = int(os.environ.get('PYTHONHASHSEED', '0') or 0) % 2 == 1      # in every second process the sibling is operated on FIRST
+
+    def probe(name, call, canon, snapshot, stable=True, on=None):
+        if pre and on is not None and sibling['obj'] is not None:
+            safe(lambda: on(sibling['obj']), timeout=10)
         before = snapshot()
         r1 = safe(call, timeout=10)
         v1 = canon(r1[1]) if ok(r1) else ['err', r1[1]]
@@ -110,6 +141,8 @@ def observe(c):
         r2 = safe(call, timeout=10)
         twice = (canon(r2[1]) if ok(r2) else ['err', r2[1]]) == v1
         safe(_history, timeout=10)
+        if on is not None and sibling['obj'] is not None:
+            safe(lambda: on(sibling['obj']), timeout=10)       # the same operation on the sibling object: part of the call history
         r3 = safe(call, timeout=10)
         hist = (canon(r3[1]) if ok(r3) else ['err', r3[1]]) == v1
         GambaTools.enable_logging = True
@@ -129,16 +162,18 @@ def observe(c):
         from gambatools.regexp_algorithms import dfa_to_regexp
         D = conv.dfa_obj(x)
         snap = lambda: conv.dfa_case(D)
-        extra['acc'] = [probe('accepts:' + w, lambda w=w: A.dfa_accepts_word(D, w), bool, snap) for w in c['ws']]
-        extra['words'] = probe('words', lambda: A.dfa_words_up_to_n(D, 3), sorted, snap)
+        sibling['obj'] = conv.dfa_obj(dict(x, F=[q for q in x['Q'] if q not in x['F']]))    # same transitions, complemented accepting set
+        extra['acc'] = [probe('accepts:' + w, lambda w=w: A.dfa_accepts_word(D, w), bool, snap, on=lambda d, w=w: A.dfa_accepts_word(d, w)) for w in c['ws']]
+        extra['words'] = probe('words', lambda: A.dfa_words_up_to_n(D, 3), sorted, snap, on=lambda d: A.dfa_words_up_to_n(d, 3))
         extra['words'] = sorted(extra['words']) if extra['words'] is not None else None
         mins = []
         for f in (A.dfa_minimize, A.dfa_quotient, A.dfa_hopfcroft):
-            r = probe(f.__name__, lambda f=f: f(D), _lang, snap)
+            r = probe(f.__name__, lambda f=f: f(D), _lang, snap, on=lambda d, f=f: f(d))
             mins.append(conv.dfa_case(r) if r is not None else None)
         extra['mins'] = mins
-        r = probe('dfa_to_regexp', lambda: dfa_to_regexp(D), _lang, snap)
-        extra['re'] = conv.re_from_obj(r) if r is not None else None
+        if not c.get('nore'):
+            r = probe('dfa_to_regexp', lambda: dfa_to_regexp(D), _lang, snap)
+            extra['re'] = conv.re_from_obj(r) if r is not None else None
         for name, f in (('complement', A.dfa_complement), ('reverse', A.dfa_reverse), ('no_prefix', A.dfa_no_prefix), ('no_extend', A.dfa_no_extend),
                         ('remove_unreachable', A.dfa_remove_unreachable_states), ('union', lambda d: A.dfa_union(d, d))):
             probe(name, lambda f=f: f(D), _lang, snap)
@@ -158,8 +193,9 @@ def observe(c):
         N = conv.nfa_obj(x)
         N2 = conv.nfa_obj(c['N2'])
         snap = lambda: [conv.nfa_case(N), conv.nfa_case(N2)]
-        extra['acc'] = [probe('accepts:' + w, lambda w=w: A.nfa_accepts_word(N, w), bool, snap) for w in c['ws']]
-        w = probe('words', lambda: A.nfa_words_up_to_n(N, 3), sorted, snap)
+        sibling['obj'] = conv.nfa_obj(dict(x, F=[q for q in x['Q'] if q not in x['F']]))
+        extra['acc'] = [probe('accepts:' + w, lambda w=w: A.nfa_accepts_word(N, w), bool, snap, on=lambda n, w=w: A.nfa_accepts_word(n, w)) for w in c['ws']]
+        w = probe('words', lambda: A.nfa_words_up_to_n(N, 3), sorted, snap, on=lambda n: A.nfa_words_up_to_n(n, 3))
         extra['words'] = sorted(w) if w is not None else None
         r = probe('nfa_to_dfa', lambda: A.nfa_to_dfa(N), _lang, snap)
         extra['det'] = conv.dfa_case(r) if r is not None else None
@@ -186,11 +222,14 @@ def observe(c):
         import gambatools.cfg_algorithms as A
         Gm = conv.cfg_obj(x)
         snap = lambda: conv.cfg_case(Gm)
+        others = [v for v in x['V'] if v != x['S'] and any(r[0] == v for r in x['R'])]
+        if others:
+            sibling['obj'] = conv.cfg_obj(dict(x, S=others[0]))     # same rules, another start variable
         for w in ('', 'a', 'ab', 'ba', 'aab'):
-            probe('accepts:' + w, lambda w=w: A.cfg_accepts_word(Gm, w), bool, snap)
-        probe('words', lambda: A.cfg_words_up_to_n(Gm, 3), sorted, snap)
+            probe('accepts:' + w, lambda w=w: A.cfg_accepts_word(Gm, w), bool, snap, on=lambda g, w=w: A.cfg_accepts_word(g, w))
+        probe('words', lambda: A.cfg_words_up_to_n(Gm, 3), sorted, snap, on=lambda g: A.cfg_words_up_to_n(g, 3))
         for f in (A.cfg_to_chomsky, A.cfg_add_new_start_variable, A.cfg_remove_epsilon_rules, A.cfg_eliminate_unit_rules, A.cfg_make_rules_of_length_two, A.cfg_eliminate_terminals):
-            probe(f.__name__, lambda f=f: f(Gm), lambda g: sorted(A.cfg_words_up_to_n(g, 3)), snap)
+            probe(f.__name__, lambda f=f: f(Gm), lambda g: sorted(A.cfg_words_up_to_n(g, 3)), snap, on=lambda g, f=f: f(g))
         probe('nullable', lambda: sorted(A.cfg_nullable_variables(Gm)), ident, snap)
         # grammar utilities outside the Chomsky pipeline (Model/CFGMisc.v)
         gcanon = lambda g: [sorted(map(str, g.V)), [str(r) for r in g.R], str(g.S)]
@@ -213,14 +252,16 @@ def observe(c):
         old = GambaTools.pda_epsilon_closure_max_iterations
         GambaTools.pda_epsilon_closure_max_iterations = c['limit']
         try:
+            if len(x['Q']) > 1:
+                sibling['obj'] = conv.pda_obj(dict(x, q0=[q for q in x['Q'] if q != x['q0']][0]))      # same transitions, another initial state
             for w in ('', 'a', 'aa', 'ab', 'aaa', 'aaaa'):
                 if all(ch in x['Sigma'] for ch in w):
-                    probe('accepts:' + w, lambda w=w: A.pda_accepts_word(P, w), bool, snap)
-            probe('words', lambda: A.pda_words_up_to_n(P, 2), sorted, snap)
+                    probe('accepts:' + w, lambda w=w: A.pda_accepts_word(P, w), bool, snap, on=lambda p, w=w: A.pda_accepts_word(p, w))
+            probe('words', lambda: A.pda_words_up_to_n(P, 2), sorted, snap, on=lambda p: A.pda_words_up_to_n(p, 2))
             if c['limit'] >= 100:
                 for f in (A.pda_to_push_pop, A.pda_to_accept_on_empty_stack):
                     probe(f.__name__, lambda f=f: f(P), lambda q: sorted(A.pda_words_up_to_n(q, 2)), snap)
-                probe('pda_to_cfg', lambda: A.pda_to_cfg(P), lambda g: len(g.R), snap)
+                probe('pda_to_cfg', lambda: A.pda_to_cfg(P), lambda g: sorted(_cfgwords(g)), snap, on=lambda p: A.pda_to_cfg(p))
                 probe('print_pda', lambda: A.print_pda(P), ident, snap, stable=False)
         finally:
             GambaTools.pda_epsilon_closure_max_iterations = old
@@ -255,6 +296,9 @@ def encode(c, o):
             sy(a)
         W = lambda w: L.nats(sy(a) for a in w)
         mins = L.lst(L.option(m, lambda m: L.dfa(m, L.Names(), sy)) for m in e['mins'])
+        if c.get('nore'):
+            return 'judge_C19_dfa_min %s %s %s 3 %s %s %s' % (L.dfa(x, st, sy), L.lst(W(w) for w in c['ws']), L.lst(L.option(a, L.boolean) for a in e['acc']),
+                                                              L.option(e['words'], lambda ws: L.lst(W(w) for w in ws)), mins, _flags(o))
         return 'judge_C19_dfa %s %s %s 3 %s %s %s %s' % (L.dfa(x, st, sy), L.lst(W(w) for w in c['ws']), L.lst(L.option(a, L.boolean) for a in e['acc']),
                                                         L.option(e['words'], lambda ws: L.lst(W(w) for w in ws)), mins, L.option(e['re'], L.re), _flags(o))
     if k == 'nfa':
